@@ -8,7 +8,9 @@ model V is the table oracle's class and whose spec V is what the oracle contract
 Core Lean only.
 -/
 import GPy.C20.Spec
+import GPy.C20.Pipe
 namespace GPy.C20
+open GPy.C06 (Tok)
 
 /-! ## rendering -/
 
@@ -96,17 +98,54 @@ def contractEntries (g : GItem) : List (String × CResult (List Stmt)) :=
     (blankPrefixes [] g.lines).map (fun p => (text p, inc)) ++
     [(text it.fed, r.toC)]
 
-def tableOf (items : List GItem) : List (String × CResult (List Stmt)) :=
-  items.flatMap (fun g => g.extra ++ contractEntries g)
+/-- is the item outside the pipeline model?  (statements Python rejects: what the real pipeline answers for their
+texts stays an ORACLE table; everything else – valid statements, their partial texts, skipped lines – is answered
+by `compileM`) -/
+def GItem.isOracle (g : GItem) : Bool :=
+  match g.res with
+  | some (.synErr _) => true
+  | _ => false
 
-def tableCompile (tab : List (String × CResult (List Stmt))) (t : String) : CResult (List Stmt) :=
-  match tab.find? (fun p => p.1 == t) with
-  | some p => p.2
-  | none => .error (synErr "invalid syntax" "")
+/-- table entry: text, answer, `true` = oracle entry (used as is), `false` = a text of the modelled part -/
+abbrev TabEntry := String × CResult (List Stmt) × Bool
 
-def worldM (tab : List (String × CResult (List Stmt))) : World :=
+def tableOf (items : List GItem) : List TabEntry :=
+  items.flatMap (fun g =>
+    g.extra.map (fun e => (e.1, e.2, match e.2 with | .error er => !needsMoreInput er | .ok _ => false)) ++
+    (contractEntries g).map (fun e => (e.1, e.2, g.isOracle)))
+
+/-- the parser of the generated sessions: it returns the tree of a statement exactly on the token sequences of the
+complete valid statements of the session (and of the bug-for-bug entries of known findings), waits on their proper
+prefixes and rejects everything else -/
+structure Keys where
+  keys : List (List Tok × List Stmt)
+
+def keysOf (tab : List TabEntry) : Keys :=
+  ⟨tab.filterMap fun e => match e.2.1, e.2.2 with
+    | .ok body, false => some ((toksOf e.1).map Prod.fst, body)
+    | _, _ => none⟩
+
+def Keys.grammar (k : Keys) : Grammar (List Stmt) where
+  status := fun T =>
+    match k.keys.find? (fun p => p.1 == T) with
+    | some p => .done (.ok p.2)
+    | none => if T.length ≤ 1 || k.keys.any (fun p => T.isPrefixOf p.1) then .more else .dead none
+
+structure Tab where
+  entries : List TabEntry
+  keys : Keys
+
+def mkTab (items : List GItem) : Tab := let es := tableOf items; ⟨es, keysOf es⟩
+
+/-- `py.Compile(t, single)` of the generated sessions: oracle entries as recorded, everything else by the pipeline model -/
+def tableCompile (tab : Tab) (t : String) : CResult (List Stmt) :=
+  match tab.entries.find? (fun p => p.1 == t && p.2.2) with
+  | some p => p.2.1
+  | none => compileM tab.keys.grammar t
+
+def worldM (tab : Tab) : World :=
   { Code := List Stmt, NS := NS, compile := tableCompile tab, run := modelRun }
-def worldS (tab : List (String × CResult (List Stmt))) : World :=
+def worldS (tab : Tab) : World :=
   { Code := List Stmt, NS := NS, compile := tableCompile tab, run := specRun }
 
 /-! ## canonical text of observations (must agree with harness/c20.go) -/
@@ -196,7 +235,7 @@ def fileText (items : List GItem) : String := Id.run do
 def escLine (l : String) : String := (l.replace "\\" "\\\\").replace "\t" "\\t" ++ "\\n"
 
 def sessionCase (items : List GItem) (extraTags : List String := []) : Case :=
-  let tab := tableOf items
+  let tab := mkTab items
   let prog := items.map GItem.toItem
   let lines := feed prog
   let (mv, mr, _) := modelSession (worldM tab) id { ns := ({} : NS) } lines
@@ -218,7 +257,7 @@ def classText {Code} : CResult Code → String
 
 /-- oracle probes of one item: model = table (bug-for-bug), spec = contract -/
 def oracleCases (g : GItem) : List Case :=
-  let tab := tableOf [g]
+  let tab := mkTab [g]
   (contractEntries g).map fun (t, want) =>
     let ls := (t.splitOn "\n").dropLast
     { input := "O " ++ String.join (ls.map escLine)
@@ -366,7 +405,7 @@ def codeItem (body : List Stmt) (lines : List String) (feats : List String) : GI
 
 /-- one program item -/
 def genItem (vars : Cfg) : G GItem := do
-  let pick ← rnd 40
+  let pick ← rnd 56
   let pick := if !vars.dirty && pick ≥ 33 && pick ≤ 38 then pick - 20 else pick
   match pick with
   -- simple one-line statements (sometimes two joined by `;`)
@@ -455,13 +494,114 @@ def genItem (vars : Cfg) : G GItem := do
     let l2 := s!"else: {renderSimple s2}"
     return { lines := [l1, l2], res := some (.code [.ifs c [s1] [s2]]), kf := some "C20-K01", feats := ["kf-inline-else"],
              extra := [(text [l1], .ok [.ifs c [s1] []]), (text [l2], .error (synErr "invalid syntax" (l2 ++ "\n")))] }
-  -- known finding K02: backslash-newline inside a single-quoted string
+  -- backslash-newline inside a single-quoted string (was known finding C20-K02, repaired by fix d93e0e4)
   | 38 => do
     let x ← oneOf strVars
-    let l1 := s!"{x} = 'ab\\"
-    let l2 := "cd'"
-    return { lines := [l1, l2], res := some (.code [.assign x (.str "abcd")]), kf := some "C20-K02", feats := ["kf-string-backslash"],
-             extra := [(text [l1], .error (synErr "EOL while scanning string literal" "")), (text [l2], .error (synErr "EOL while scanning string literal" (l2 ++ "\n")))] }
+    let q ← oneOf ["'", "\""]
+    let l1 := s!"{x} = {q}ab\\"
+    let l2 := "cd" ++ q
+    return codeItem [.assign x (.str "abcd")] [l1, l2] ["string-backslash"]
+  -- ---- second round: wider syntax (the body is the semantics of the lines in the fragment of Lang.lean) ----
+  -- decorator (identity function `d`, defined in most sessions; NameError before the def otherwise)
+  | 40 => do
+    let k ← rnd 5
+    let body : List Stmt := [.ret (.bin .add (.name "u") (.int (k : Nat)))]
+    return codeItem [.assign "f" (.name "d"), .defn "f" ["u"] body, .assign "f" (.call1 "d" (.name "f"))]
+      ["@d", "def f(u):", s!"    return (u + {k})"] ["decorator", "compound"]
+  -- class statement with a nested def: `__repr__` returns a text or raises
+  | 41 => do
+    let raises ← chance 1 2
+    let nm ← oneOf ["R", "T"]
+    let ret := if raises then "        return 1 // 0" else s!"        return '{nm}!'"
+    let cm ← chance 1 4
+    return codeItem [.classdef nm (if raises then none else some (nm ++ "!"))]
+      ([s!"class {nm}:"] ++ (if cm then ["    # the only member"] else []) ++ ["    def __repr__(self):", ret]) ["class", "nested-def"]
+  -- instances echoed: repr may raise inside the echo
+  | 42 | 43 => do
+    let nm ← oneOf ["R", "T"]
+    match ← rnd 5 with
+    | 0 => return codeItem [.assign "o" (.call0 nm)] [s!"o = {nm}()"] ["instance"]
+    | 1 => return codeItem [.expr (.name "o")] ["o"] ["instance", "echo-object"]
+    | 2 => return codeItem [.expr (.call0 nm), .assign "a" (.int 1)] [s!"{nm}(); a = 1"] ["instance", "echo-object", "semicolon"]
+    | 3 => return codeItem [.expr (.name nm)] [nm] ["echo-class"]
+    | _ => return codeItem [.expr (.call0 nm)] [s!"{nm}()"] ["instance", "echo-object"]
+  -- context manager class and with statement
+  | 44 => do
+    let ls := ["class CM:", "    def __enter__(self):", "        return 1", "    def __exit__(self, a, b, c):", "        return False"]
+    return codeItem [.classdef "CM" (some "CM!")] ls ["class", "nested-def"]
+  | 45 => do
+    let blk ← genBlock 0 vars
+    return codeItem ([.assign "w" (.call0 "CM"), .assign "w" (.int 1)] ++ blk) (["with CM() as w:"] ++ renderL 1 blk) ["with", "compound"]
+  -- try / except / finally
+  | 46 | 47 => do
+    let s1 ← if (← chance 1 3) then pure (Stmt.assign "a" (.bin .floordiv (.int 1) (.int 0))) else genSimple vars
+    let s1b ← genSimple vars
+    let s2 ← genSimple vars
+    let s3 ← genSimple vars
+    let bare ← chance 1 2
+    let fin ← chance 1 3
+    let inner := Stmt.tryExcept [s1, s1b] (if bare then none else some "ZeroDivisionError") [s2]
+    let ls := ["try:", "    " ++ renderSimple s1, "    " ++ renderSimple s1b, (if bare then "except:" else "except ZeroDivisionError:"), "    " ++ renderSimple s2]
+    if fin then
+      return codeItem [.tryFinally [inner] [s3]] (ls ++ ["finally:", "    " ++ renderSimple s3]) ["try", "finally", "compound"]
+    else return codeItem [inner] ls ["try", "compound"]
+  -- nested def
+  | 48 => do
+    let k ← rnd 4
+    return codeItem [.defn "h" ["u"] [.defn "k" ["w"] [.expr (.name "w"), .ret (.bin .add (.name "w") (.int (k : Nat)))],
+                                     .ret (.bin .mul (.call1 "k" (.name "u")) (.int 2))]]
+      ["def h(u):", "    def k(w):", "        w", s!"        return (w + {k})", "    return (k(u) * 2)"] ["nested-def", "compound", "nested"]
+  -- default arguments and lambda
+  | 49 => do
+    let dflt ← oneOf [Expr.int 2, .int 0, .name "a", .name "k"]
+    return codeItem [.defnD "f2" ["u", "v"] [dflt] [.ret (.bin .mul (.name "u") (.name "v"))]]
+      [s!"def f2(u, v={dflt.render}):", "    return (u * v)"] ["defaults", "compound"]
+  | 50 => do
+    let k ← rnd 5
+    return codeItem [.lam "g2" ["u"] (.bin .sub (.name "u") (.int (k : Nat)))] [s!"g2 = lambda u: (u - {k})"] ["lambda"]
+  | 51 => do
+    let a ← genInt true 1 vars
+    let f ← oneOf ["h", "f2", "g2", "f2"]
+    if ← chance 1 4 then return codeItem [.expr (.call0 f)] [s!"{f}()"] ["call-new"]
+    return codeItem [.expr (.call1 f a)] [s!"{f}({a.render})"] ["call-new"]
+  -- displays over several lines with comments (and an empty line) inside
+  | 52 => do
+    let x ← oneOf intVars
+    let a ← rnd 9
+    let b ← rnd 9
+    let i ← rnd 2
+    let blank ← chance 1 2
+    if ← chance 1 2 then
+      return codeItem [.assign x (.int ((if i == 0 then a else b) : Nat))]
+        ([s!"{x} = [{a},  # first"] ++ ["     # only a comment"] ++ (if blank then [""] else []) ++ [s!"     {b},", s!"    ][{i}]"])
+        (["display", "bracket", "comment"] ++ (if blank then ["blank-inside"] else []))
+    else
+      return codeItem [.assign x (.int ((if i == 0 then a else b) : Nat))]
+        ([s!"{x} = " ++ "{" ++ s!"'k': {a},  # c: d"] ++ (if blank then [""] else []) ++ [s!"  'j': {b}" ++ "}" ++ (if i == 0 then "['k']" else "['j']")])
+        (["display", "bracket", "comment"] ++ (if blank then ["blank-inside"] else []))
+  -- unicode identifiers and strings
+  | 53 => do
+    let v ← oneOf ["é", "λ", "中"]
+    match ← rnd 4 with
+    | 0 => do let k ← rnd 9; return codeItem [.assign v (.int (k : Nat))] [s!"{v} = {k}"] ["unicode"]
+    | 1 => return codeItem [.expr (.bin .add (.name v) (.int 1))] [s!"({v} + 1)"] ["unicode"]
+    | 2 => do let x ← oneOf strVars; return codeItem [.assign x (.bin .add (.str "λx → ") (.str "é中"))] [s!"{x} = ('λx → ' + 'é中')"] ["unicode"]
+    | _ => return codeItem [.expr (.str "naïve ☃")] ["'naïve ☃'"] ["unicode"]
+  -- very long lines
+  | 54 => do
+    let n ← rnd 300
+    let n := n + 100
+    if ← chance 1 2 then
+      return codeItem [.assign "a" (.int (n : Nat))] ["a = " ++ " + ".intercalate (List.replicate n "1")] ["long-line"]
+    else
+      let body := String.mk (List.replicate (5 * n) 'x')
+      return codeItem [.assign "s" (.str body)] [s!"s = '{body}'"] ["long-line"]
+  -- the user rebinds / deletes `_`
+  | 55 => do
+    match ← rnd 3 with
+    | 0 => do let k ← rnd 9; return codeItem [.assign "_" (.int (k : Nat))] [s!"_ = {k}"] ["underscore"]
+    | 1 => return codeItem [.del "_"] ["del _"] ["underscore"]
+    | _ => return codeItem [.expr (.name "_")] ["_"] ["underscore"]
   | _ => do
     let s ← genCompound 2 vars
     return codeItem [s] (renderS 0 s) ["compound"]
@@ -483,6 +623,9 @@ def genSession (n : Nat) : G (List GItem) := do
   if defs || (← chance 1 3) then
     let s := Stmt.defn "g" [] [.pass]
     items := items ++ [codeItem [s] ["def g(): pass"] ["inline-compound"]]
+  if defs || (← chance 1 2) then
+    let s := Stmt.defn "d" ["u"] [.ret (.name "u")]
+    items := items ++ [codeItem [s] (renderS 0 s) ["compound"]]
   for _ in [0:n] do
     items := items ++ [← genItem vars]
   -- look at the final state
@@ -501,14 +644,12 @@ def corpus : List (List GItem) :=
     [{ lines := ["s = 'unexpected EOF while parsing' )"], res := some (.synErr (synErr "invalid syntax" "s = 'unexpected EOF while parsing' )\n")) }, a1, st [.expr (.name "a")] ["a"]],
     -- a whitespace-only line (fixed: 9b205ea)
     [{ lines := ["   "], res := none }, a1, st [.assign "b" (.int 2)] ["b = 2"], { lines := [""], res := none }, st [.expr (.name "b")] ["b"]],
-    -- K01 / K02 witnesses
+    -- K01 witness; the former K02 witness (repaired: fix d93e0e4)
     [st [.assign "x" (.int 0)] ["x = 0"],
      { lines := ["if x: y = 1", "else: y = 2"], res := some (.code [.ifs (.name "x") [.assign "y" (.int 1)] [.assign "y" (.int 2)]]), kf := some "C20-K01",
        extra := [(text ["if x: y = 1"], .ok [.ifs (.name "x") [.assign "y" (.int 1)] []]), (text ["else: y = 2"], .error (synErr "invalid syntax" "else: y = 2\n"))] },
      st [.expr (.name "y")] ["y"]],
-    [{ lines := ["s = 'ab\\", "cd'"], res := some (.code [.assign "s" (.str "abcd")]), kf := some "C20-K02",
-       extra := [(text ["s = 'ab\\"], .error (synErr "EOL while scanning string literal" "")), (text ["cd'"], .error (synErr "EOL while scanning string literal" "cd'\n"))] },
-     st [.expr (.name "s")] ["s"]],
+    [st [.assign "s" (.str "abcd")] ["s = 'ab\\", "cd'"], st [.expr (.name "s")] ["s"]],
     -- runtime error in the middle of a loop: earlier effects stay, session goes on
     [st [.forRange "i" (.int 3) [.assign "x" (.bin .floordiv (.int 1) (.bin .sub (.int 1) (.name "i")))]] ["for i in range(3):", "    x = (1 // (1 - i))"],
      st [.expr (.name "i")] ["i"], st [.expr (.name "x")] ["x"]],
@@ -517,7 +658,15 @@ def corpus : List (List GItem) :=
      st [.forRange "i" (.int 3) [.expr (.name "i")]] ["for i in range(3):", "    i"], st [.expr (.name "_")] ["_"]],
     -- empty lines inside brackets and triple-quoted strings do not end the statement
     [st [.assign "a" (.bin .add (.int 1) (.int 2))] ["a = (1 +", "", "2)"], st [.expr (.name "a")] ["a"],
-     { st [.assign "s" (.str "a\n\nb")] ["s = '''a", "", "b'''"] with incMsg := tripleMsg }, st [.expr (.name "s")] ["s"]] ]
+     { st [.assign "s" (.str "a\n\nb")] ["s = '''a", "", "b'''"] with incMsg := tripleMsg }, st [.expr (.name "s")] ["s"]],
+    -- repr raising inside the echo: reported, `_` left at None, session goes on; the statement after `;` is not run
+    [st [.assign "x" (.int 5)] ["x = 5"], st [.expr (.name "x")] ["x"],
+     st [.classdef "R" none] ["class R:", "    def __repr__(self):", "        return 1 // 0"],
+     st [.expr (.call0 "R"), .assign "x" (.int 6)] ["R(); x = 6"], st [.expr (.name "_")] ["_"], st [.assign "o" (.call0 "R")] ["o = R()"],
+     st [.expr (.name "o")] ["o"], st [.expr (.name "x")] ["x"], st [.expr (.name "_")] ["_"]],
+    -- the user rebinds and deletes `_`
+    [st [.assign "_" (.int 5)] ["_ = 5"], st [.expr (.int 7)] ["7"], st [.expr (.name "_")] ["_"], st [.del "_"] ["del _"],
+     st [.expr (.name "_")] ["_"], st [.expr .none] ["None"], st [.del "_"] ["del _"]] ]
 
 def emitSession (items : List GItem) (extraTags : List String := []) : IO Unit := do
   IO.println (sessionCase items extraTags).line
